@@ -33,7 +33,9 @@ type c07Input struct {
 }
 
 var c07Modes = []string{"scripts-only", "tx", "tx+scripts", "tx-nil-prevout", "nil-tx-neg-idx", "nil-tx-idx0", "idx-out-of-range", "idx-minus-one",
-	"tx-nil-unlocking", "tx-no-inputs", "prevout-nil-script", "nil-scripts"}
+	"tx-nil-unlocking", "tx-no-inputs", "prevout-nil-script", "nil-scripts",
+	// transaction objects a caller can build that have no serialisation
+	"tx-nil-checked-input", "tx-input-without-txid", "tx-other-input-without-txid", "tx-nil-other-input", "tx-nil-output", "tx-output-nil-script"}
 
 func c07Options(in *c07Input) []interpreter.ExecutionOptionFunc {
 	unlock := bscript.NewFromBytes(mon.Exact(in.Unlock))
@@ -98,6 +100,30 @@ func c07Options(in *c07Input) []interpreter.ExecutionOptionFunc {
 		o = append(o, interpreter.WithTx(mkTx(), idx, &bt.Output{Satoshis: in.Ctx.Sats}), interpreter.WithScripts(lock, unlock))
 	case "nil-scripts":
 		o = append(o, interpreter.WithScripts(nil, nil))
+	case "tx-nil-checked-input":
+		tx := mkTx()
+		tx.Inputs[idx] = nil
+		o = append(o, interpreter.WithTx(tx, idx, prev), interpreter.WithScripts(lock, unlock))
+	case "tx-input-without-txid":
+		tx := mkTx()
+		tx.Inputs[idx] = &bt.Input{PreviousTxOutIndex: uint32(idx), SequenceNumber: in.Ctx.Sequence, UnlockingScript: unlock}
+		o = append(o, interpreter.WithTx(tx, idx, prev))
+	case "tx-other-input-without-txid":
+		tx := mkTx()
+		tx.Inputs = append(tx.Inputs, &bt.Input{SequenceNumber: 1, UnlockingScript: bscript.NewFromBytes([]byte{0x51})})
+		o = append(o, interpreter.WithTx(tx, idx, prev))
+	case "tx-nil-other-input":
+		tx := mkTx()
+		tx.Inputs = append(tx.Inputs, nil)
+		o = append(o, interpreter.WithTx(tx, idx, prev))
+	case "tx-nil-output":
+		tx := mkTx()
+		tx.Outputs = append(tx.Outputs, nil)
+		o = append(o, interpreter.WithTx(tx, idx, prev))
+	case "tx-output-nil-script":
+		tx := mkTx()
+		tx.Outputs = append(tx.Outputs, &bt.Output{Satoshis: 3})
+		o = append(o, interpreter.WithTx(tx, idx, prev))
 	}
 	o = append(o, flagOptions(in.Flags, len(in.Unlock)+3*len(in.Lock)+int(in.Flags%7))...)
 	return o
